@@ -255,7 +255,7 @@ def gen_partitions(ctx):
                     break
                 children = []
                 for bi, block in enumerate(blocks):
-                    toks = [{"w": "abcdefghij"[i - 1], "p": "NN", "n": i, "e": "--", "lem": "--", "m": "--"} for i in block]
+                    toks = [{"w": "abcdefghijklmnop"[i - 1], "p": "NN", "n": i, "e": "--", "lem": "--", "m": "--"} for i in block]
                     if len(toks) == 1 and not unary:
                         children.append(toks[0])
                     else:
